@@ -14,7 +14,7 @@ ASSUME_CONN = ["handler-supplied strings contain no NUL byte",
 
 def conn_family(cx, model, gen_prop, n_quick, n_thorough, consts_thorough=None, rule="", extra_models=(),
                 trace_module="Trace_PgConn", trace_cfg=None, mc_workers=1, known_match=None, gen_extra=None,
-                play_extra=None, negative=(), proj=None, max_replay_quick=6000, max_replay_thorough=None):
+                play_extra=None, negative=(), proj=None, max_replay_quick=6000, max_replay_thorough=60000):
     """Generic procedure for properties decided on the single-connection machine."""
     build_harness(cx)
     thorough = cx.tier == "thorough"
